@@ -29,6 +29,16 @@ def qsvd_glue(env, m, n, R=None):
         r = p if R is None else R
         env.holds('shapes', tuple(U.shape) == (m, m if R is None else r) and tuple(V.shape) == (n, n if R is None else r) and len(sv) == r)
         env.holds('singular values non-negative and non-increasing', all(sv[i] >= -1e-12 for i in range(r)) and all(sv[i] >= sv[i + 1] - 1e-9 for i in range(r - 1)))
+        import numpy as np
+        ref = np.linalg.svd(env.R.utils.real_expand(X), compute_uv=False)[::4][:r]
+        env.eq('singular values = every 4th singular value of the real embedding', list(sv), list(ref), tol=1e-8)
+        if r == p and len(set(np.round(ref, 6))) == len(ref) and ref[-1] > 1e-6:
+            # distinct non-zero singular values: LAPACK's factors are then determined up to unit phases
+            Sm = cm.qmat_from_nested(env, [[[float(sv[i]) if i == j else 0, 0, 0, 0] for j in range(r)] for i in range(r)])
+            Uk, Vk = U[:, :r], V[:, :r]
+            rec = env.R.utils.quat_matmat(env.R.utils.quat_matmat(Uk, Sm), env.R.utils.quat_hermitian(Vk))
+            env.eq('A = U S V^H (distinct singular values)', cm.as_nested(env, rec), cm.as_nested(env, X), tol=1e-7)
+            env.eq('U^H U = I (distinct singular values)', cm.as_nested(env, env.R.utils.quat_matmat(env.R.utils.quat_hermitian(Uk), Uk)), cm.eye_nested(r), tol=1e-7)
         return
     Uq = env.qarr('u', (m, m))
     Vq = env.qarr('v', (n, n))
